@@ -141,3 +141,126 @@ Lemma ex_centroid_chunk_w :
   = (([[None; Some (4 * 1, 6 * 1)]; [Some (2 * 1, 2 * 1); Some (8 * 1, 2 * 1)]], 2%nat),
      [Some (4 * 1 * (1 # 2), 6 * 1 * (1 # 2)); Some (8 * 1 * (1 # 2), 2 * 1 * (1 # 2))])%Q.
 Proof. vm_compute. reflexivity. Qed.
+
+(* ------------------------------------------ inside the domain (review finding 2) -- *)
+
+Lemma lf_domain_pos : forall uo fr, lf_domain uo fr = true ->
+  (0 < length (filter nonempty (considered uo fr)))%nat.
+Proof. intros uo fr H. apply existsb_filter_pos. exact H. Qed.
+
+(* what the TOTALISED model does where the code raises (np.stack of an empty list): no label row,
+   zero-node padding rows.  Model only: no code behaviour corresponds to it. *)
+Lemma process_lf_outside_domain_model_only_l : forall uo maxi fr, lf_domain uo fr = false ->
+  process_lf uo maxi fr = (if Nat.eqb maxi 1 then [] else repeat [] (absdiff maxi 0), 0%nat).
+Proof.
+  intros uo maxi fr H. unfold process_lf.
+  assert (E : filter nonempty (considered uo fr) = []).
+  { unfold lf_domain in H. induction (considered uo fr) as [|a t IH]; simpl in *; auto.
+    destruct (nonempty a); simpl in *; [discriminate|auto]. }
+  rewrite E. simpl. destruct (Nat.eqb maxi 1); reflexivity.
+Qed.
+
+Lemma process_lf_num_dom_l : forall uo maxi fr, lf_domain uo fr = true ->
+  snd (process_lf uo maxi fr) = length (filter nonempty (considered uo fr)) /\
+  (0 < snd (process_lf uo maxi fr))%nat.
+Proof. intros uo maxi fr H. rewrite process_lf_num_l. split; [reflexivity|apply lf_domain_pos; exact H]. Qed.
+
+Lemma process_lf_row_dom_l : forall uo maxi fr j, lf_domain uo fr = true ->
+  (j < snd (process_lf uo maxi fr))%nat ->
+  nth_error (fst (process_lf uo maxi fr)) j = nth_error (filter nonempty (considered uo fr)) j.
+Proof. intros uo maxi fr j _. apply process_lf_row_l. Qed.
+
+Lemma process_lf_pad_dom_l : forall uo maxi fr j row, lf_domain uo fr = true ->
+  (snd (process_lf uo maxi fr) <= j)%nat ->
+  nth_error (fst (process_lf uo maxi fr)) j = Some row ->
+  all_missing row = true /\
+  exists r0, nth_error (fst (process_lf uo maxi fr)) 0 = Some r0 /\ nonempty r0 = true /\ length row = length r0.
+Proof.
+  intros uo maxi fr j row D Hle Hn. split; [eapply process_lf_pad_l; eauto|].
+  pose proof (lf_domain_pos uo fr D) as P. unfold process_lf in *. cbn [fst snd] in *.
+  destruct (filter nonempty (considered uo fr)) as [|r0 t] eqn:E; [simpl in P; lia|].
+  assert (Hne : nonempty r0 = true).
+  { assert (In r0 (filter nonempty (considered uo fr))) by (rewrite E; left; reflexivity).
+    apply filter_In in H. tauto. }
+  exists r0. destruct (Nat.eqb maxi 1).
+  - split; [reflexivity|]. split; auto. apply nth_error_None in Hle. congruence.
+  - split; [reflexivity|]. split; auto.
+    rewrite nth_error_app2 in Hn by exact Hle. apply nth_error_In in Hn. apply repeat_spec in Hn.
+    subst row. unfold nan_row. apply repeat_length.
+Qed.
+
+Lemma chunk_base_rows_dom_l : forall uo maxi eff fr, lf_domain uo fr = true ->
+  let labs := filter nonempty (considered uo fr) in
+  let b := chunk_base uo maxi eff fr in
+  snd b = length labs /\ (0 < snd b)%nat /\
+  (forall j lab, nth_error labs j = Some lab -> nth_error (fst b) j = Some (map (scale_kp eff) lab)) /\
+  (forall j row, (snd b <= j)%nat -> nth_error (fst b) j = Some row -> all_missing row = true).
+Proof.
+  intros uo maxi eff fr D labs b. destruct (chunk_base_rows_l uo maxi eff fr) as [Hn [Hr Hp]].
+  split; [exact Hn|]. split; [|split; assumption].
+  unfold b. rewrite Hn. apply lf_domain_pos. exact D.
+Qed.
+
+Lemma bottomup_chunk_rows_dom_l : forall uo maxi eff s fr, lf_domain uo fr = true ->
+  let labs := filter nonempty (considered uo fr) in
+  let b := bottomup_chunk uo maxi eff s fr in
+  snd b = length labs /\ (0 < snd b)%nat /\
+  (forall j lab, nth_error labs j = Some lab ->
+     nth_error (fst b) j = Some (map (scale_kp s) (map (scale_kp eff) lab))) /\
+  (forall j row, (snd b <= j)%nat -> nth_error (fst b) j = Some row -> all_missing row = true).
+Proof.
+  intros uo maxi eff s fr D labs b. destruct (bottomup_chunk_rows_l uo maxi eff s fr) as [Hn [Hr Hp]].
+  split; [exact Hn|]. split; [|split; assumption].
+  unfold b. rewrite Hn. apply lf_domain_pos. exact D.
+Qed.
+
+Lemma centroid_chunk_keeps_instances_dom_l : forall anchor uo maxi eff s fr,
+  lf_domain uo fr = true -> chunk_anchor_domain anchor uo fr = true ->
+  fst (centroid_chunk true anchor uo maxi eff s fr) = chunk_base uo maxi eff fr.
+Proof. intros anchor uo maxi eff s fr _ _. apply centroid_chunk_keeps_instances_l. Qed.
+
+Lemma centroid_chunk_centroids_dom_l : forall fixed anchor uo maxi eff s fr j,
+  lf_domain uo fr = true -> chunk_anchor_domain anchor uo fr = true ->
+  nth_error (snd (centroid_chunk fixed anchor uo maxi eff s fr)) j =
+  option_map (fun row => scale_kp s (fst (gen_centroid fixed anchor row)))
+             (nth_error (fst (chunk_base uo maxi eff fr)) j).
+Proof. intros fixed anchor uo maxi eff s fr j _ _. apply centroid_chunk_centroids_l. Qed.
+
+Lemma centroid_chunk_missing_iff_dom_l : forall fixed anchor uo maxi eff s fr j row c,
+  lf_domain uo fr = true -> chunk_anchor_domain anchor uo fr = true ->
+  nth_error (fst (chunk_base uo maxi eff fr)) j = Some row ->
+  nth_error (snd (centroid_chunk fixed anchor uo maxi eff s fr)) j = Some c ->
+  (c = None <-> all_missing row = true).
+Proof. intros fixed anchor uo maxi eff s fr j row c _ _. apply centroid_chunk_missing_iff_l. Qed.
+
+Lemma centered_chunk_dom_l : forall anchor uo maxi eff fr,
+  lf_domain uo fr = true -> chunk_anchor_domain anchor uo fr = true ->
+  let labs := filter nonempty (considered uo fr) in
+  let cs := centered_chunk true anchor uo maxi eff fr in
+  length cs = length labs /\ (0 < length cs)%nat /\
+  (forall j lab, nth_error labs j = Some lab ->
+     exists c, nth_error cs j = Some (c, map (scale_kp eff) lab) /\ c <> None /\
+               c = fst (gen_centroid true anchor (map (scale_kp eff) lab))).
+Proof.
+  intros anchor uo maxi eff fr D _ labs cs. destruct (centered_chunk_l anchor uo maxi eff fr) as [Hn Hr].
+  split; [exact Hn|]. split; [|exact Hr]. unfold cs. rewrite Hn. apply lf_domain_pos. exact D.
+Qed.
+
+(* the datasets call process_lf only inside its domain: every frame of lf_idx_list has a non-empty
+   considered instance (so the dataset-level theorems never rest on the totalisation) *)
+Lemma frame_sample_in_domain_l : forall uo frames k f,
+  nth_error (lf_idx_list (ds_frames uo frames)) k = Some f ->
+  lf_domain uo (rebind uo (nth f frames [])) = true.
+Proof.
+  intros uo frames k f E.
+  assert (Hin : In f (lf_idx_list (ds_frames uo frames))) by (eapply nth_error_In; eauto).
+  apply frame_idx_list_sound_l in Hin. destruct Hin as [fr [Hfr Hex]].
+  destruct (ds_frames_nth _ _ _ _ Hfr) as [-> _]. unfold lf_domain. rewrite considered_rebind. exact Hex.
+Qed.
+
+Lemma ex_chunk_domain_w :
+  lf_domain true [mklinst true [None; Some (4 # 1, 6 # 1)]; mklinst false [None; None]] = true /\
+  chunk_anchor_domain (Some 1%nat) true [mklinst true [None; Some (4 # 1, 6 # 1)]] = true /\
+  lf_domain true [mklinst true [None; None]; mklinst false [Some (1, 1); None]] = false /\
+  chunk_anchor_domain (Some 2%nat) true [mklinst true [None; Some (4 # 1, 6 # 1)]] = false.
+Proof. repeat split; reflexivity. Qed.
